@@ -342,6 +342,9 @@ fn driver(p: &'static dyn Prop, tier: Tier) -> i32 {
         })
         .collect();
     let mut died_at: HashSet<(usize, Vec<u32>)> = HashSet::new();
+    // cases given up after the same execution killed the worker twice: the death is reported as a violation of that case,
+    // so the case counts as reported even though it has no result record
+    let mut abandoned: HashSet<usize> = HashSet::new();
     let stall = Duration::from_secs(p.stall_secs());
     let mut done = vec![false; nshards];
     while done.iter().any(|d| !d) {
@@ -412,6 +415,9 @@ fn driver(p: &'static dyn Prop, tier: Tier) -> i32 {
                         // skip list): give up on that case and continue with the next one
                         let repeated = died_at.contains(&(case, choices.clone()));
                         died_at.insert((case, choices.clone()));
+                        if repeated {
+                            abandoned.insert(case);
+                        }
                         let case = if repeated { case + 1 } else { case };
                         if w.restarts > 2000 {
                             machinery.push(format!("shard {}: more than 2000 worker deaths", w.shard));
@@ -566,6 +572,7 @@ fn driver(p: &'static dyn Prop, tier: Tier) -> i32 {
         lines.push(format!("VIOLATION property={id} replay={file}"));
     }
 
+    seen_cases.extend(abandoned.iter().copied());
     if seen_cases.len() != n_cases && machinery.is_empty() {
         machinery.push(format!("only {} of {} cases reported", seen_cases.len(), n_cases));
     }
